@@ -71,6 +71,18 @@ class Opaque:
         return "Opaque(%s)" % self.text
 
 
+class Cat:
+    """Concatenation of list segments: Seq (known items) and opaque sequences."""
+    __slots__ = ("parts", "ident")
+
+    def __init__(self, parts, ident=None):
+        self.parts = list(parts)
+        self.ident = ident
+
+    def __repr__(self):
+        return "Cat(%r)" % (self.parts,)
+
+
 class Closure:
     __slots__ = ("func", "env", "selfv")
 
@@ -146,6 +158,12 @@ class Phi:
         return "Phi(%s ? %r : %r)" % (ckey(self.cond.tree) if isinstance(self.cond, Cond) else self.cond, self.a, self.b)
 
 
+def _phi_size(v, depth=0):
+    if isinstance(v, Phi) and depth < 8:
+        return 1 + _phi_size(v.a, depth + 1) + _phi_size(v.b, depth + 1)
+    return 0
+
+
 def mkphi(cond, a, b):
     if key(a) == key(b):
         return a
@@ -164,6 +182,8 @@ def key(v):
         return ("[%s]" if v.kind == "list" else "(%s)") % ", ".join(key(x) for x in v.items)
     if isinstance(v, DictV):
         return "{%s}" % ", ".join("%r: %s" % (k, key(x)) for k, x in sorted(v.items.items(), key=lambda kv: repr(kv[0])))
+    if isinstance(v, Cat):
+        return " ++ ".join(key(x) for x in v.parts)
     if isinstance(v, Closure):
         return "<fn %s>" % v.func.qual
     if isinstance(v, ClassRef):
@@ -184,9 +204,9 @@ def key(v):
 def ckey(t):
     if isinstance(t, tuple):
         return "%s(%s)" % (t[0], ", ".join(ckey(x) for x in t[1:]))
-    if isinstance(t, (Num, Const, Opaque, Seq, DictV, Cond, Phi, Closure, Ext)):
-        return key(t)
-    return str(t)
+    if isinstance(t, (str, int, bool)) or t is None:
+        return str(t)
+    return key(t)
 
 
 def as_num(v):
@@ -205,6 +225,8 @@ def as_num(v):
         a, b = as_num(v.a), as_num(v.b)
         if a is not None and b is not None:
             return Num.atom(("phi", key(v.cond), a.key(), b.key()))
+    if isinstance(v, OverrideV):
+        return Num.atom(key(v))
     return None
 
 
@@ -347,6 +369,10 @@ class Evaluator:
         self._modcache = {}
         self.fresh = 0
         self.trace = []
+        self.nonempty = set()  # texts of opaque sequences assumed non-empty
+        self.on_getitem = None  # hook(base value, index value, state) -> value or None
+        self.on_loop = None  # hook(stmt, iter value, state) -> True if the rule handled the loop
+        self.map_inst = {}
         self.order = {}  # (keyA, keyB) -> 'lt' | 'eq' | 'gt'   (facts assumed by the rule: ORD enumeration)
         self.facts = {}  # cond key -> bool
 
@@ -545,7 +571,7 @@ class Evaluator:
         return Closure(f, st.env)
 
     def e_IfExp(self, n, st):
-        c = self.truth(self.expr(n.test, st))
+        c = self.cond(n.test, st)
         if isinstance(c, Const):
             return self.expr(n.body if c.v else n.orelse, st)
         a = self.expr(n.body, st)
@@ -556,6 +582,15 @@ class Evaluator:
         v = self.expr(n.operand, st)
         if isinstance(n.op, ast.Not):
             return cnot(self.truth(v))
+        if isinstance(v, Phi) and _phi_size(v) <= 16:
+            return self._dist(lambda xs: self._unary(n.op, xs[0]), [v])
+        return self._unary(n.op, v)
+
+    def _unary(self, op, v):
+        class _N:
+            pass
+        n = _N()
+        n.op = op
         x = as_num(v)
         if x is None:
             return Opaque("(%s%s)" % (type(n.op).__name__, key(v)))
@@ -567,29 +602,50 @@ class Evaluator:
 
     def e_BoolOp(self, n, st):
         isand = isinstance(n.op, ast.And)
-        vals = []
-        for e in n.values:
-            v = self.expr(e, st)
+        # short-circuit evaluation with Python value semantics:
+        #   a and b -> b if a else a ;  a or b -> a if a else b
+        def go(i):
+            v = self.expr(n.values[i], st)
+            if i == len(n.values) - 1:
+                return v
             t = self.truth(v)
             if isinstance(t, Const):
-                if isand and not t.v:
-                    return v if not vals else (FALSE if all(isinstance(self.truth(x), (Const, Cond)) for x in vals) else v)
-                if (not isand) and t.v:
-                    if not vals:
-                        return v
-                    return Cond(("or",) + tuple(self.truth(x).tree for x in vals) + (("const", True),)) if False else (v if False else self._bool_join(isand, vals + [v]))
-                # neutral element: skip unless last
-                if e is n.values[-1] and not vals:
-                    return v
-                if e is n.values[-1]:
-                    vals.append(v)
-                continue
-            vals.append(v)
-        if not vals:
-            return TRUE if isand else FALSE
-        if len(vals) == 1:
-            return vals[0]
-        return self._bool_join(isand, vals)
+                if isand:
+                    return go(i + 1) if t.v else v
+                return v if t.v else go(i + 1)
+            rest = go(i + 1)
+            boolish = isinstance(v, (Cond,)) or (isinstance(v, Const) and isinstance(v.v, bool))
+            rboolish = isinstance(rest, (Cond,)) or (isinstance(rest, Const) and isinstance(rest.v, bool))
+            if boolish and rboolish:
+                return self._bool_join(isand, [v, rest])
+            if isand:
+                return mkphi(t, rest, v)
+            return mkphi(t, v, rest)
+
+        return go(0)
+
+    def cond(self, n, st):
+        """Evaluate expression n in boolean context: Const(bool) or Cond."""
+        if isinstance(n, ast.BoolOp):
+            isand = isinstance(n.op, ast.And)
+            parts = []
+            for e in n.values:
+                c = self.cond(e, st)
+                if isinstance(c, Const):
+                    if isand and not c.v:
+                        return FALSE if not parts else self._bool_join(True, parts + [FALSE])
+                    if (not isand) and c.v:
+                        return TRUE if not parts else self._bool_join(False, parts + [TRUE])
+                    continue
+                parts.append(c)
+            if not parts:
+                return TRUE if isand else FALSE
+            if len(parts) == 1:
+                return parts[0]
+            return self._fold_assumed(self._bool_join(isand, parts))
+        if isinstance(n, ast.UnaryOp) and isinstance(n.op, ast.Not):
+            return self._fold_assumed(cnot(self.cond(n.operand, st)))
+        return self.truth(self.expr(n, st))
 
     def _bool_join(self, isand, vals):
         ts = []
@@ -627,6 +683,13 @@ class Evaluator:
             return Cond(("truth", v))
         if isinstance(v, Seq):
             return Const(len(v.items) > 0)
+        if isinstance(v, Opaque) and v.text in self.nonempty:
+            return TRUE
+        if isinstance(v, Opaque) and v.kind in ("new", "obj"):
+            return TRUE
+        if isinstance(v, Cat):
+            if any((isinstance(p, Seq) and p.items) or (isinstance(p, Opaque) and p.text in self.nonempty) for p in v.parts):
+                return TRUE
         if isinstance(v, DictV) and v.fallback is None:
             return Const(len(v.items) > 0)
         if isinstance(v, (Closure, ClassRef, ModRef, Ext, Bound)):
@@ -651,6 +714,18 @@ class Evaluator:
         return self._bool_join(True, res)
 
     def compare(self, op, a, b):
+        if (isinstance(a, Phi) or isinstance(b, Phi)) and _phi_size(a) + _phi_size(b) <= 16 and op not in ("is", "isnot"):
+            r = self._dist(lambda xs: self.compare(op, xs[0], xs[1]), [a, b])
+            if isinstance(r, Phi):
+                # boolean Phi -> condition
+                ta, tb = self.truth(r.a), self.truth(r.b)
+                if isinstance(ta, Const) and isinstance(tb, Const):
+                    if ta.v and not tb.v:
+                        return r.cond
+                    if tb.v and not ta.v:
+                        return cnot(r.cond)
+                return Cond(("phi", r.cond.tree if isinstance(r.cond, Cond) else r.cond, ta.tree if isinstance(ta, Cond) else ta, tb.tree if isinstance(tb, Cond) else tb))
+            return r
         return self._fold_assumed(self._compare(op, a, b))
 
     def _compare(self, op, a, b):
@@ -721,13 +796,31 @@ class Evaluator:
         b = self.expr(n.right, st)
         return self.binop(type(n.op), a, b, n)
 
+    def _dist(self, fn, args):
+        """Apply fn(args) distributing over Phi arguments that share a condition."""
+        for x in args:
+            if isinstance(x, Phi):
+                ck_ = key(x.cond)
+                la = [y.a if isinstance(y, Phi) and key(y.cond) == ck_ else y for y in args]
+                lb = [y.b if isinstance(y, Phi) and key(y.cond) == ck_ else y for y in args]
+                return mkphi(x.cond, self._dist(fn, la), self._dist(fn, lb))
+        return fn(args)
+
     def binop(self, op, a, b, n=None):
+        if (isinstance(a, Phi) or isinstance(b, Phi)) and _phi_size(a) + _phi_size(b) <= 32:
+            return self._dist(lambda xs: self.binop(op, xs[0], xs[1], n), [a, b])
         # string / sequence operations
         if op is ast.Mod and (isinstance(a, Const) and isinstance(a.v, str) or isinstance(a, Template)):
             return self.percent_format(a, b)
         if op is ast.Add:
             if isinstance(a, Seq) and isinstance(b, Seq):
                 return Seq(a.kind, a.items + b.items, ident="A:concat")
+            def _isseq(x):
+                return isinstance(x, (Seq, Cat, MapV)) or (isinstance(x, Opaque) and x.kind in ("seq", "copy"))
+            if _isseq(a) and _isseq(b) and (isinstance(a, (Seq, Cat)) or isinstance(b, (Seq, Cat))):
+                pa = a.parts if isinstance(a, Cat) else [a]
+                pb = b.parts if isinstance(b, Cat) else [b]
+                return Cat(pa + pb, ident="A:concat")
             sa, sb = self.as_template(a), self.as_template(b)
             if sa is not None and sb is not None and (self._stringy(a) or self._stringy(b)):
                 return self._mk_template(sa + sb)
@@ -856,6 +949,8 @@ class Evaluator:
                 f = self.P.method(base.cls, attr)
                 if f is not None:
                     return Closure(f, None, selfv=base)
+            if base.kind in ("seq", "copy") and attr in ("sort", "reverse", "append", "extend", "pop", "insert", "remove", "index", "copy"):
+                return Bound(base, attr)
             fc = self.field_cls.get(attr)
             if callable(fc):
                 fc = fc(base)
@@ -896,7 +991,20 @@ class Evaluator:
         return Opaque("%s[%s:%s%s]" % (key(base), "" if lo is None else key(lo), "" if hi is None else key(hi), "" if step is None else ":" + key(step)))
 
     def getitem(self, base, idx, st=None):
+        if self.on_getitem is not None:
+            r = self.on_getitem(base, idx, st)
+            if r is not None:
+                return r
         ic = num_const(idx)
+        if isinstance(base, Cat) and ic is not None and ic.denominator == 1 and int(ic) in (0, -1):
+            part = base.parts[0] if int(ic) == 0 else base.parts[-1]
+            ne = isinstance(part, Seq) and part.items or (isinstance(part, Opaque) and part.text in self.nonempty) or (isinstance(part, MapV) and key(part.it) in self.nonempty)
+            if ne:
+                return self.getitem(part, idx, st)
+            return Opaque("%s[%d]" % (key(base), int(ic)))
+        if isinstance(base, MapV) and ic is not None:
+            src = self.getitem(base.it, idx, st)
+            return self.map_instance(base, src, st)
         if isinstance(base, Seq) and ic is not None and ic.denominator == 1:
             i = int(ic)
             if -len(base.items) <= i < len(base.items):
@@ -936,6 +1044,14 @@ class Evaluator:
             return mkphi(base.cond, self.getitem(base.a, idx, st), self.getitem(base.b, idx, st))
         return Opaque("%s[%s]" % (key(base), key(idx)))
 
+    def map_instance(self, mapv, src, st):
+        """The element of [body(el) for el in it] that corresponds to source element `src`."""
+        k = (id(mapv), key(src))
+        if k not in self.map_inst:
+            self.map_inst[k] = Opaque("map(%s)<%s>" % (key(mapv.body)[:40], key(src)), cls=getattr(mapv.body, "cls", None), kind="obj")
+            self.map_inst[k] = (self.map_inst[k], src)
+        return self.map_inst[k][0]
+
     def e_ListComp(self, n, st):
         return self._comp(n, st, "list")
 
@@ -955,6 +1071,7 @@ class Evaluator:
             out = []
             for x in items:
                 s2 = State(Env({}, st.env, st.env.module, st.env.func), st.heap)
+                s2.events = st.events
                 self.bind(g.target, x, s2)
                 keep = True
                 for c in g.ifs:
@@ -965,13 +1082,16 @@ class Evaluator:
                         return Opaque("<comp %s>" % ntext(n))
                 if keep:
                     out.append(self.expr(n.elt, s2))
+                st.heap = s2.heap
             return Seq(kind, out, ident="A:comp@%s" % n.lineno)
         # generic element
         el = self.elem_of(it)
         s2 = State(Env({}, st.env, st.env.module, st.env.func), st.heap)
+        s2.events = st.events
         self.bind(g.target, el, s2)
         body = self.expr(n.elt, s2)
         conds = [key(self.expr(c, s2)) for c in g.ifs]
+        st.heap = s2.heap
         return MapV(it, el, body, conds)
 
     def e_DictComp(self, n, st):
@@ -1030,6 +1150,21 @@ class Evaluator:
 
     # -- calls ---------------------------------------------------------------
     def e_Call(self, n, st):
+        if isinstance(n.func, ast.Attribute) and n.func.attr in ("append", "insert") and isinstance(n.func.value, ast.Name) and not n.keywords:
+            cur = st.env.lookup(n.func.value.id)
+            if isinstance(cur, (Cat, MapV)) or (isinstance(cur, Opaque) and cur.kind in ("seq", "copy")):
+                if n.func.attr == "append" and len(n.args) == 1:
+                    item = self.expr(n.args[0], st)
+                    parts = cur.parts if isinstance(cur, Cat) else [cur]
+                    st.env.assign(n.func.value.id, Cat(parts + [Seq("list", [item])], ident="A:append"))
+                    st.events.append(("seq-append", n.func.value.id, item, n))
+                    return NONE
+                if n.func.attr == "insert" and len(n.args) == 2 and num_const(self.expr(n.args[0], st)) == 0:
+                    item = self.expr(n.args[1], st)
+                    parts = cur.parts if isinstance(cur, Cat) else [cur]
+                    st.env.assign(n.func.value.id, Cat([Seq("list", [item])] + parts, ident="A:insert"))
+                    st.events.append(("seq-insert0", n.func.value.id, item, n))
+                    return NONE
         fv = self.expr(n.func, st)
         args = []
         for a in n.args:
@@ -1115,6 +1250,8 @@ class Evaluator:
     def call_closure(self, c, args, kwargs, st, node=None):
         f = c.func
         if self.inline_filter is not None and not self.inline_filter(f):
+            if c.selfv is not None and not isinstance(c.selfv, ClassRef):
+                return Opaque("%s.%s(%s)" % (key(c.selfv), f.name, ", ".join(key(a) for a in args)))
             return Opaque("%s(%s)" % (f.qual, ", ".join(key(a) for a in args)))
         if len(self.stack) >= self.max_depth or any(x is f for x in self.stack):
             st.events.append(("call-noinline", f.qual, [key(a) for a in args], node))
@@ -1156,6 +1293,8 @@ class Evaluator:
         return obj
 
     def call_ext(self, name, args, kwargs, st, node):
+        if any(isinstance(a, Phi) for a in args) and sum(_phi_size(a) for a in args) <= 32 and name.split(".")[-1] in (MATH_UNARY | PURE_BUILTINS):
+            return self._dist(lambda xs: self.call_ext(name, xs, kwargs, st, node), list(args))
         short = name.split(".")[-1]
         nums = [as_num(a) for a in args]
         allnum = all(x is not None for x in nums) and not kwargs
@@ -1203,6 +1342,13 @@ class Evaluator:
                 return C(a.length) if a.length is not None else Num.atom("len(%s)" % key(a))
             if isinstance(a, DictV) and a.fallback is None:
                 return C(len(a.items))
+            if isinstance(a, Cat):
+                r = C(0)
+                for p in a.parts:
+                    r = r + (C(len(p.items)) if isinstance(p, Seq) else Num.atom("len(%s)" % key(p.it if isinstance(p, MapV) else p)))
+                return r
+            if isinstance(a, MapV) and not a.conds:
+                return Num.atom("len(%s)" % key(a.it))
             return Num.atom("len(%s)" % key(a))
         if name == "str" and len(args) == 1:
             if isinstance(args[0], Const) and isinstance(args[0].v, str):
@@ -1252,6 +1398,7 @@ class Evaluator:
             body = self.call(fnv, [el], {}, st, node)
             return MapV(it, el, body, [])
         if name == "sorted" and args:
+            st.events.append(("sorted", args[0], dict(kwargs), node))
             return Opaque("sorted(%s%s)" % (key(args[0]), ", key=%s" % key(kwargs["key"]) if "key" in kwargs else ""), cls=getattr(args[0], "cls", None), kind="copy")
         if name == "reversed" and args:
             a = args[0]
@@ -1283,6 +1430,8 @@ class Evaluator:
                     return Opaque("sum(%s)" % key(args[0]))
                 r = r + nx
             return r
+        if name in ("all", "any") and len(args) == 1:
+            return Cond((name, args[0]))
         if name == "next" and args:
             return Opaque("next(%s)" % key(args[0]))
         if name == "chr" and len(args) == 1:
@@ -1301,6 +1450,13 @@ class Evaluator:
 
     def call_bound(self, b, args, kwargs, st, node):
         recv, name = b.recv, b.name
+        if isinstance(recv, Opaque):
+            st.events.append(("seq-" + name, recv.text, list(args), dict(kwargs), node))
+            if name in ("sort", "reverse", "append", "extend", "insert", "remove"):
+                return NONE
+            if name == "copy":
+                return Opaque("%s.copy()" % recv.text, cls=recv.cls, kind="copy")
+            return Opaque("%s.%s(%s)" % (recv.text, name, ", ".join(key(a) for a in args)), cls=recv.cls)
         if isinstance(recv, Seq):
             if name == "append" and len(args) == 1:
                 recv.items.append(args[0])
@@ -1318,6 +1474,9 @@ class Evaluator:
                     return recv.items.pop(int(num_const(args[0])))
             if name == "copy":
                 return Seq(recv.kind, recv.items, ident="A:copy")
+            if name in ("sort", "reverse"):
+                st.events.append(("seq-" + name, recv.ident or key(recv), list(args), dict(kwargs), node))
+                return NONE
             if name == "index" or name == "count":
                 return Num.atom("%s.%s(%s)" % (key(recv), name, ", ".join(key(a) for a in args)))
         if isinstance(recv, DictV):
@@ -1476,10 +1635,18 @@ class Evaluator:
         end of the function.  Returns Ret or None."""
         for i, s in enumerate(stmts):
             if isinstance(s, ast.If):
-                c = self.truth(self.expr(s.test, st))
+                c = self.cond(s.test, st)
                 rest = list(stmts[i + 1:])
                 if isinstance(c, Const):
                     return self.block((s.body if c.v else s.orelse) + rest, st, cont)
+                if not _has_exit(s):
+                    s1, s2 = st.fork(), st.fork()
+                    self.on_branch(s, c, True, s1)
+                    self.on_branch(s, c, False, s2)
+                    self.block(list(s.body), s1, [])
+                    self.block(list(s.orelse), s2, [])
+                    self.merge(st, c, s1, s2)
+                    continue
                 s1, s2 = st.fork(), st.fork()
                 self.on_branch(s, c, True, s1)
                 self.on_branch(s, c, False, s2)
@@ -1590,6 +1757,8 @@ class Evaluator:
 
     def for_loop(self, s, st):
         it = self.expr(s.iter, st)
+        if self.on_loop is not None and self.on_loop(s, it, st):
+            return None
         items = self.iter_items(it)
         if items is not None and len(items) <= 64:
             for x in items:
@@ -1691,7 +1860,7 @@ class Evaluator:
             if st.env.lookup(k) is not None:
                 s2.env.assign(k, Opaque("%s@loop%d" % (k, line), cls=getattr(st.env.lookup(k), "cls", None)))
         n0 = len(s2.events)
-        c = self.expr(s.test, s2)
+        c = self.cond(s.test, s2)
         self.block(s.body, s2, [])
         st.events.append(("while", c, s2.events[n0:], s, s2))
         for k in assigned:
@@ -1701,6 +1870,19 @@ class Evaluator:
                 st.heap = dict(st.heap)
                 st.heap[k] = Opaque("%s.%s@after-loop%d" % (k[0], k[1], line))
         return None
+
+
+def _has_exit(s):
+    """Does the if-statement contain a return/raise/break/continue (own scope)?"""
+    stack = list(s.body) + list(s.orelse)
+    while stack:
+        n = stack.pop()
+        if isinstance(n, (ast.Return, ast.Raise, ast.Break, ast.Continue)):
+            return True
+        if isinstance(n, FUNC_NODES + (ast.ClassDef,)):
+            continue
+        stack.extend(c for c in ast.iter_child_nodes(n) if isinstance(c, ast.stmt) or isinstance(c, ast.ExceptHandler))
+    return False
 
 
 def _as_load(t):
